@@ -803,7 +803,13 @@ private:
       ? std::min(_config.connectTimeout, std::chrono::milliseconds(200))
       : _config.connectTimeout;
 
-    auto connectResult = _transport->connectSync(resolvedHost, parsedUrl.port, tlsMode, timeout);
+    // The transport only sees the resolved address: hand it the URL's host name
+    // too, so that a verified https connection checks the certificate against
+    // the name that was asked for (and sends it as SNI).
+    const std::string tlsServerName =
+      (parsedUrl.isHttps() && !isIPAddress(parsedUrl.host)) ? parsedUrl.host : std::string();
+    auto connectResult =
+      _transport->connectSync(resolvedHost, parsedUrl.port, tlsMode, timeout, tlsServerName);
     if (connectResult.isErr())
     {
       throw std::runtime_error("Connection failed to " + hostPort + ": " +
